@@ -497,6 +497,8 @@ func genSite(t *rapid.T) Site {
 	s.Index = rapid.SampledFrom([]string{"", "", "b.txt index.html", "c.txt", "d.txt", "Casketfile index.html", "d.txt e.html"}).Draw(t, "index")
 	s.Origin = rapid.SampledFrom([]string{"", "", "", "dir/index.html", "noindex/d.txt", "dir/sub/c.txt"}).Draw(t, "origin")
 	s.RootSlash = rapid.Bool().Draw(t, "rootslash")
+	// the site may be declared under a path prefix (host/prefix): requests then carry the prefix
+	s.PathPrefix = rapid.SampledFrom([]string{"", "", "", "/pre", "/pre/fix"}).Draw(t, "prefix")
 	return s
 }
 
